@@ -477,3 +477,182 @@ pub fn pk_attempt(
 ) -> Option<(usize, Vec<Option<core::ops::Range<usize>>>)> {
     crate::pikevm::verif_attempt(re.verif_cr(), text, pos, ascii)
 }
+
+fn ir_canon(out: &mut String, n: &crate::ir::Node) {
+    use crate::ir::Node;
+    fn q(out: &mut String, quant: &crate::ir::Quantifier) {
+        let _ = write!(
+            out,
+            "{} {} {}",
+            quant.min,
+            quant.max.map(|m| format!("{}", m)).unwrap_or_else(|| "inf".into()),
+            quant.greedy as u8
+        );
+    }
+    match n {
+        Node::Empty => out.push_str("(empty)"),
+        Node::Goal => out.push_str("(goal)"),
+        Node::Char { c } => {
+            let _ = write!(out, "(char {:x})", c);
+        }
+        Node::ByteSequence(b) => {
+            out.push_str("(bytes");
+            for x in b {
+                let _ = write!(out, " {:x}", x);
+            }
+            out.push(')');
+        }
+        Node::ByteSet(b) => {
+            out.push_str("(byteset");
+            for x in b {
+                let _ = write!(out, " {:x}", x);
+            }
+            out.push(')');
+        }
+        Node::CharSet(b) => {
+            out.push_str("(charset");
+            for x in b {
+                let _ = write!(out, " {:x}", x);
+            }
+            out.push(')');
+        }
+        Node::Cat(ns) => {
+            out.push_str("(cat");
+            for x in ns {
+                out.push(' ');
+                ir_canon(out, x);
+            }
+            out.push(')');
+        }
+        Node::Alt(l, r) => {
+            out.push_str("(alt ");
+            ir_canon(out, l);
+            out.push(' ');
+            ir_canon(out, r);
+            out.push(')');
+        }
+        Node::MatchAny => out.push_str("(any)"),
+        Node::MatchAnyExceptLineTerminator => out.push_str("(anynl)"),
+        Node::Anchor {
+            anchor_type,
+            multiline,
+        } => {
+            let t = match anchor_type {
+                crate::ir::AnchorType::StartOfLine => "sol",
+                crate::ir::AnchorType::EndOfLine => "eol",
+            };
+            let _ = write!(out, "(anchor {} {})", t, *multiline as u8);
+        }
+        Node::WordBoundary {
+            invert,
+            unicode_icase,
+        } => {
+            let _ = write!(out, "(wb {} {})", *invert as u8, *unicode_icase as u8);
+        }
+        Node::CaptureGroup { id, contents, name } => {
+            let _ = write!(out, "(group {} ", id);
+            match name {
+                None => out.push('-'),
+                Some(nm) => {
+                    for (j, c) in nm.chars().enumerate() {
+                        if j > 0 {
+                            out.push('.');
+                        }
+                        let _ = write!(out, "{:x}", c as u32);
+                    }
+                }
+            }
+            out.push(' ');
+            ir_canon(out, contents);
+            out.push(')');
+        }
+        Node::BackRef { group, icase } => {
+            let _ = write!(out, "(backref {} {})", group, *icase as u8);
+        }
+        Node::Bracket(bc) => {
+            let _ = write!(out, "(bracket {} ", bc.invert as u8);
+            intervals(out, bc.cps.intervals());
+            out.push(')');
+        }
+        Node::StringSet {
+            alternatives,
+            icase,
+        } => {
+            let _ = write!(out, "(strset {}", *icase as u8);
+            for alt in alternatives {
+                out.push(' ');
+                if alt.is_empty() {
+                    out.push('-');
+                }
+                for (j, c) in alt.iter().enumerate() {
+                    if j > 0 {
+                        out.push('.');
+                    }
+                    let _ = write!(out, "{:x}", c);
+                }
+            }
+            out.push(')');
+        }
+        Node::LookaroundAssertion {
+            negate,
+            backwards,
+            start_group,
+            end_group,
+            contents,
+        } => {
+            let _ = write!(
+                out,
+                "(look {} {} {} {} ",
+                *negate as u8, *backwards as u8, start_group, end_group
+            );
+            ir_canon(out, contents);
+            out.push(')');
+        }
+        Node::Loop {
+            loopee,
+            quant,
+            enclosed_groups,
+        } => {
+            out.push_str("(loop ");
+            q(out, quant);
+            let _ = write!(out, " {} {} ", enclosed_groups.start, enclosed_groups.end);
+            ir_canon(out, loopee);
+            out.push(')');
+        }
+        Node::Loop1CharBody { loopee, quant } => {
+            out.push_str("(loop1 ");
+            q(out, quant);
+            out.push(' ');
+            ir_canon(out, loopee);
+            out.push(')');
+        }
+    }
+}
+
+/// Parse (and, unless `flags.no_opt`, optimize) a pattern; the IR as a canonical s-expression.
+pub fn dump_ir_canon<I>(pattern: I, flags: crate::api::Flags) -> Result<String, crate::api::Error>
+where
+    I: Iterator<Item = u32> + Clone,
+{
+    let mut ire = crate::parse::try_parse(pattern, flags)?;
+    if !flags.no_opt {
+        crate::optimizer::optimize(&mut ire);
+    }
+    let mut out = String::new();
+    ir_canon(&mut out, &ire.node);
+    Ok(out)
+}
+
+/// The start predicate computed for a pattern (after the optional optimization), as in the `S` line.
+pub fn dump_start_predicate<I>(pattern: I, flags: crate::api::Flags) -> Result<String, crate::api::Error>
+where
+    I: Iterator<Item = u32> + Clone,
+{
+    let mut ire = crate::parse::try_parse(pattern, flags)?;
+    if !flags.no_opt {
+        crate::optimizer::optimize(&mut ire);
+    }
+    let mut out = String::new();
+    dump_start_pred(&mut out, &crate::startpredicate::predicate_for_re(&ire));
+    Ok(out)
+}
